@@ -38,7 +38,7 @@ def plan(tier):
             extra_cov={})
 
     return {
-        "n_runs": _scale(4800 if quick else 250000),
+        "n_runs": _scale(4800 if quick else 100000),
         "jit_modes": [False],
         "params": params,
         "watchdog": 120,
@@ -48,7 +48,7 @@ def plan(tier):
         "evidence": evidence,
         # thorough: exhaustive single-fault enumeration (every raw I/O call index × every applicable
         # fault kind of every dump/load op) over short sampled histories
-        "enum_runs": 0 if quick else _scale(480),
+        "enum_runs": 0 if quick else _scale(240),
         "enum_max_cases": 600,
         "enum_watchdog": 3600,
         "enum_wall_cap": 3 * 3600,
